@@ -12,7 +12,7 @@ NOT_APPLICABLE = {}
 CHECKS = {
     "C11": {
         "level": "exploration",
-        "technique": "lockstep differential monitor (FFI-driven instance vs Rust-API-driven instance) with per-call flag/bytes/verdict and full-observation comparison, run natively and under AddressSanitizer (valgrind memcheck and a Miri run of the FFI buffer handling in thorough); process death = violation",
+        "technique": "lockstep differential monitor (FFI-driven instance vs Rust-API-driven instance) with per-call flag/bytes/verdict and full-observation comparison, run natively and under AddressSanitizer (valgrind memcheck and a Miri run of the FFI buffer handling in thorough); process death = violation; a second lockstep on the stateless build (constructor sequences with different witness graphs)",
         "text": "Generated sequences of all exported FFI functions (in/out-of-range indices, odd buffers, batch and sequential batch updates, metadata, flush, set_tree, hashing, key generation, valid/invalid proof requests, verification of valid/tampered/truncated inputs, recovery, new/new_with_params with bad arguments) run on an instance reached only through raw pointers with uninitialised outputs, in lockstep with a twin driven through RLN methods; success flags, output bytes (relations for randomised outputs incl. cross-verification of proofs), verdicts and the observation (root, leaf count, 28 leaves, metadata) of both instances are compared after every call, and a failed call must leave the observation unchanged. The workload is repeated on an ASan build so that every pointer/length handed out is actually dereferenced under the sanitizer; thorough adds valgrind memcheck (uninitialised output bytes) on a proof-free sequence and Miri on the FFI buffer handling around ffi::hash, the byte codecs and the graph operators (the only parts Miri can reach).",
         "note": "Trusted: catch_unwind on the Rust side defines 'the Rust API returns'; leak checking off (outputs are leaked by design).",
     },
@@ -24,7 +24,7 @@ CHECKS = {
     },
     "C16": {
         "level": "fault_enumeration",
-        "technique": "fault enumeration with a cfg(zerokit_verif) fail-after-N storage hook (every put/put_batch/flush of each short history fails once) + reopen monitor against the ideal model + SIGKILL crash points of a writer process + reopen while another process holds the storage lock + real write failures via RLIMIT_FSIZE",
+        "technique": "fault enumeration with a cfg(zerokit_verif) fail-after-N storage hook (every put/put_batch/flush of each short history fails once) + reopen monitor against the ideal model + SIGKILL crash points of a writer process + reopen while another process holds the storage lock + real write failures via RLIMIT_FSIZE + fault-then-retry (refused call repeated, full state incl. root compared after reopen) + location check for absolute and relative configured paths",
         "text": "For short generated histories through RLN on persistent trees the harness counts the storage operations of an unarmed run and replays the history once per storage operation with the fault armed there (exhaustive for these histories): the API call hit must return Err, earlier calls keep their results, and after disarm+flush+drop+reopen every leaf, the leaf count and the metadata acknowledged before the failed call must be readable. Longer histories are flushed, dropped and reopened at four points under 6 storage configurations and 4 path styles and must equal the model, which the reopened tree keeps following. A writer process is SIGKILLed after an acknowledged flush - two thirds of the kills at a quiescent point right after the acknowledgement, enumerating the kind of update segment the flush closed (mixed, batch-only without growth, single-leaf-only, metadata-only, batch-then-delete) x depth x configuration, the rest in flight 0..120 ms later - and the recovered state must contain everything acknowledged. Reopen is attempted while another process holds the lock for 10..500 ms. Every other injected fault position repeats the refused call with faults off: if it is acknowledged, leaves, count, metadata and root must equal the model after flush + reopen (known finding: leaf count not persisted again after its persisting write failed once - vacp2p_pmtree). A writer process whose RLIMIT_FSIZE is lowered after its first acknowledged flush makes sled's writes really fail (EFBIG): nothing may panic and everything reported successful and flushed must be readable after reopen. Known finding: reset on a persistent instance.",
         "note": "Trusted: the hook returns the adapter's own error value at the entry of put/put_batch/close (same path as a failing sled call); the effect of the failed/in-flight operation is excluded; SIGKILL is a process crash, not a power failure.",
     },
